@@ -52,37 +52,39 @@ theorem idxOf_get (name : String) (l : List String) (h : name ∈ l) : l[idxOf n
       simpa using ih this
 
 /-- a compile error leaves the whole session state — symbols, caches, functions — untouched -/
-theorem C19_failed_compile_changes_nothing (persistent : Bool) (globals : List String) (st : St) (e : Entry)
-    (err : CompileError) (h : compile persistent globals st e = .error err) : step persistent globals st e = st := by
-  simp [step, h]
+theorem C19_failed_compile_changes_nothing (globals : List String) (st : St) (e : Entry)
+    (err : CompileError) (h : compile globals st e = .error err) : step globals st e = st := by
+  simp [step, stepWith, h]
 
 /-- the table an entry is compiled against extends the module's symbols -/
-theorem compile_table (persistent : Bool) (globals : List String) (st : St) (e : Entry) (c : Compiled)
-    (h : compile persistent globals st e = .ok c) : ∃ more, c.table = st.symbols ++ more := by
-  unfold compile at h
+theorem compile_table (globals : List String) (st : St) (e : Entry) (c : Compiled)
+    (h : compile globals st e = .ok c) : ∃ more, c.table = st.symbols ++ more := by
+  unfold compile compileAt at h
   split at h
   · cases h
   · split at h
     · cases h
     · split at h
       · cases h
-      · cases h
-        exact ⟨_, List.append_assoc _ _ _⟩
+      · split at h
+        · cases h
+        · cases h
+          exact ⟨_, List.append_assoc _ _ _⟩
 
-theorem step_symbols (persistent : Bool) (globals : List String) (st : St) (e : Entry) :
-    ∃ more, (step persistent globals st e).symbols = st.symbols ++ more := by
+theorem step_symbols (globals : List String) (st : St) (e : Entry) :
+    ∃ more, (step globals st e).symbols = st.symbols ++ more := by
   unfold step
-  cases h : compile persistent globals st e with
-  | error err => exact ⟨[], by simp⟩
-  | ok c => simpa using compile_table persistent globals st e c h
+  cases h : compile globals st e with
+  | error err => exact ⟨[], by simp [stepWith]⟩
+  | ok c => simpa [stepWith] using compile_table globals st e c h
 
-theorem run_symbols (persistent : Bool) (globals : List String) (st : St) (es : List Entry) :
-    ∃ more, (runSession persistent globals st es).symbols = st.symbols ++ more := by
+theorem run_symbols (globals : List String) (st : St) (es : List Entry) :
+    ∃ more, (runSession globals st es).symbols = st.symbols ++ more := by
   induction es generalizing st with
   | nil => exact ⟨[], by simp [runSession]⟩
   | cons e rest ih =>
-    obtain ⟨m1, h1⟩ := step_symbols persistent globals st e
-    obtain ⟨m2, h2⟩ := ih (step persistent globals st e)
+    obtain ⟨m1, h1⟩ := step_symbols globals st e
+    obtain ⟨m2, h2⟩ := ih (step globals st e)
     exact ⟨m1 ++ m2, by simp [runSession, h2, h1, List.append_assoc]⟩
 
 /-- every `GetModSym`/`SetModSym` the compiler emits for a name carries that name's index in the
@@ -107,28 +109,28 @@ theorem number_resolves (tbl : List String) (np ni : Nat) (ops : List Op) (name 
 that compile, entries that fail to compile, entries that fail while running): a name that has a
 module slot after `es1` has the *same* slot after `es1 ++ es2`, the slot still holds that name, and
 any later entry that compiles resolves the name to that slot. -/
-theorem C19_symbols_persist (persistent : Bool) (globals : List String) (st0 : St) (es1 es2 : List Entry) (name : String)
-    (hdef : name ∈ (runSession persistent globals st0 es1).symbols) :
-    let st1 := runSession persistent globals st0 es1
-    let st2 := runSession persistent globals st1 es2
+theorem C19_symbols_persist (globals : List String) (st0 : St) (es1 es2 : List Entry) (name : String)
+    (hdef : name ∈ (runSession globals st0 es1).symbols) :
+    let st1 := runSession globals st0 es1
+    let st2 := runSession globals st1 es2
     idxOf name st2.symbols = idxOf name st1.symbols ∧
     st2.symbols[idxOf name st1.symbols]? = some name ∧
-    ∀ e c, compile persistent globals st2 e = .ok c →
+    ∀ e c, compile globals st2 e = .ok c →
       idxOf name c.table = idxOf name st1.symbols ∧
       ∀ f ∈ { name := "script", ops := e.script : FunDef } :: e.funs, Op.get name ∈ f.ops →
         ∀ np ni, ROp.get (idxOf name st1.symbols) ∈ (number c.table np ni f.ops).1 := by
   intro st1 st2
-  obtain ⟨more, hm⟩ := run_symbols persistent globals st1 es2
+  obtain ⟨more, hm⟩ := run_symbols globals st1 es2
   have h1 : idxOf name st2.symbols = idxOf name st1.symbols := by
-    show idxOf name (runSession persistent globals st1 es2).symbols = _
+    show idxOf name (runSession globals st1 es2).symbols = _
     rw [hm]; exact idxOf_append name _ _ hdef
   refine ⟨h1, ?_, ?_⟩
   · rw [← h1]
-    exact idxOf_get name _ (by show name ∈ (runSession persistent globals st1 es2).symbols; rw [hm]; exact List.mem_append_left _ hdef)
+    exact idxOf_get name _ (by show name ∈ (runSession globals st1 es2).symbols; rw [hm]; exact List.mem_append_left _ hdef)
   · intro e c hc
-    obtain ⟨m2, hm2⟩ := compile_table persistent globals st2 e c hc
+    obtain ⟨m2, hm2⟩ := compile_table globals st2 e c hc
     have h2 : idxOf name c.table = idxOf name st1.symbols := by
-      rw [hm2, idxOf_append name _ _ (by show name ∈ (runSession persistent globals st1 es2).symbols; rw [hm]; exact List.mem_append_left _ hdef)]
+      rw [hm2, idxOf_append name _ _ (by show name ∈ (runSession globals st1 es2).symbols; rw [hm]; exact List.mem_append_left _ hdef)]
       exact h1
     refine ⟨h2, ?_⟩
     intro f _ hop np ni
@@ -136,8 +138,8 @@ theorem C19_symbols_persist (persistent : Bool) (globals : List String) (st0 : S
     exact (number_resolves c.table np ni f.ops name).1 hop
 
 /-- `runSession` over a concatenation -/
-theorem runSession_append (persistent : Bool) (globals : List String) (st : St) (es1 es2 : List Entry) :
-    runSession persistent globals st (es1 ++ es2) = runSession persistent globals (runSession persistent globals st es1) es2 := by
+theorem runSession_append (globals : List String) (st : St) (es1 es2 : List Entry) :
+    runSession globals st (es1 ++ es2) = runSession globals (runSession globals st es1) es2 := by
   induction es1 generalizing st with
   | nil => rfl
   | cons e rest ih => simp [runSession, ih]
@@ -215,6 +217,29 @@ theorem numberFuns_range (tbl : List String) (np ni : Nat) (fs : List FunDef) :
     · obtain ⟨c1, c2⟩ := b3 g hg op hop
       exact ⟨fun id hid => by have := c1 id hid; omega, fun id hid => by have := c2 id hid; omega⟩
 
+/-- what a successful compile produced, without the name-resolution detail: the functions and the
+script numbered consecutively from the start ids, after a prologue without cache sites -/
+theorem compileAt_ok (np0 ni0 : Nat) (globals : List String) (st : St) (e : Entry) (c : Compiled)
+    (h : compileAt np0 ni0 globals st e = .ok c) :
+    ∃ tbl pro, propIds pro = [] ∧ invIds pro = [] ∧
+      c.funs = (numberFuns tbl np0 ni0 e.funs).1 ∧
+      c.script = pro ++ (number tbl (numberFuns tbl np0 ni0 e.funs).2.1 (numberFuns tbl np0 ni0 e.funs).2.2 e.script).1 ∧
+      c.propCount = (number tbl (numberFuns tbl np0 ni0 e.funs).2.1 (numberFuns tbl np0 ni0 e.funs).2.2 e.script).2.1 ∧
+      c.invCount = (number tbl (numberFuns tbl np0 ni0 e.funs).2.1 (numberFuns tbl np0 ni0 e.funs).2.2 e.script).2.2 := by
+  unfold compileAt at h
+  split at h
+  · cases h
+  · split at h
+    · cases h
+    · split at h
+      · cases h
+      · split at h
+        · cases h
+        · cases h
+          refine ⟨_, _, ?_, ?_, rfl, rfl, rfl, rfl⟩
+          · simp [propIds, List.filterMap_append, List.filterMap_map, List.filterMap_flatMap]
+          · simp [invIds, List.filterMap_append, List.filterMap_map, List.filterMap_flatMap]
+
 /-- every live function's cache ids index inside the module's current cache vectors -/
 def InRange (st : St) : Prop :=
   ∀ f ∈ st.live, ∀ op ∈ f.ops,
@@ -237,50 +262,53 @@ theorem flatMap_faults_nil (live : List RFun) (calls : List String) (propLen inv
   intro f hf
   exact faults_nil_of_inRange _ _ f (fun op hop => h f (List.mem_filter.mp hf).1 op hop)
 
-theorem step_inRange (globals : List String) (st : St) (e : Entry) (h : InRange st) :
-    InRange (step true globals st e) ∧ (step true globals st e).faults = st.faults := by
+/-- **C19_cache_vectors_only_grow.**  `InlineCache::grow` is never asked to shorten a vector (its two
+`debug_assert!`s hold, `resize` never truncates): an entry leaves the module's cache vectors at least
+as long as they were. -/
+theorem C19_cache_vectors_only_grow (globals : List String) (st : St) (e : Entry) :
+    st.propLen ≤ (step globals st e).propLen ∧ st.invLen ≤ (step globals st e).invLen := by
   unfold step
-  cases hc : compile true globals st e with
+  cases hc : compile globals st e with
+  | error err => simp [stepWith]
+  | ok c =>
+    obtain ⟨tbl, pro, _, _, _, _, hp, hi⟩ := compileAt_ok _ _ globals st e c hc
+    obtain ⟨a1, a2, _⟩ := numberFuns_range tbl st.propLen st.invLen e.funs
+    obtain ⟨b1, b2, _⟩ := number_range tbl (numberFuns tbl st.propLen st.invLen e.funs).2.1
+      (numberFuns tbl st.propLen st.invLen e.funs).2.2 e.script
+    simp only [stepWith, hp, hi]
+    omega
+
+theorem step_inRange (globals : List String) (st : St) (e : Entry) (h : InRange st) :
+    InRange (step globals st e) ∧ (step globals st e).faults = st.faults := by
+  unfold step
+  cases hc : compile globals st e with
   | error err => exact ⟨h, rfl⟩
   | ok c =>
-    unfold compile at hc
-    split at hc
-    · cases hc
-    · split at hc
-      · cases hc
-      · split at hc
-        · cases hc
-        · cases hc
-          simp only [if_true]
-          generalize htbl : st.symbols ++ e.decls ++ _ = tbl
-          obtain ⟨a1, a2, a3⟩ := numberFuns_range tbl st.propLen st.invLen e.funs
-          obtain ⟨b1, b2, _⟩ := number_range tbl (numberFuns tbl st.propLen st.invLen e.funs).2.1
-            (numberFuns tbl st.propLen st.invLen e.funs).2.2 e.script
-          have hin : InRange
-              { symbols := tbl, propLen := (number tbl (numberFuns tbl st.propLen st.invLen e.funs).2.1
-                  (numberFuns tbl st.propLen st.invLen e.funs).2.2 e.script).2.1,
-                invLen := (number tbl (numberFuns tbl st.propLen st.invLen e.funs).2.1
-                  (numberFuns tbl st.propLen st.invLen e.funs).2.2 e.script).2.2,
-                live := st.live ++ (numberFuns tbl st.propLen st.invLen e.funs).1, faults := st.faults } := by
-            intro f hf op hop
-            simp only [List.mem_append] at hf
-            rcases hf with hf | hf
-            · obtain ⟨c1, c2⟩ := h f hf op hop
-              exact ⟨fun id hid => by have := c1 id hid; simp only; omega,
-                     fun id hid => by have := c2 id hid; simp only; omega⟩
-            · obtain ⟨c1, c2⟩ := a3 f hf op hop
-              exact ⟨fun id hid => by have := c1 id hid; simp only; omega,
-                     fun id hid => by have := c2 id hid; simp only; omega⟩
-          refine ⟨fun f hf op hop => hin f hf op hop, ?_⟩
-          exact (by
-            rw [flatMap_faults_nil _ e.calls _ _ (fun f hf op hop => hin f hf op hop), List.append_nil])
+    obtain ⟨tbl, pro, _, _, hf, _, hp, hi⟩ := compileAt_ok _ _ globals st e c hc
+    obtain ⟨a1, a2, a3⟩ := numberFuns_range tbl st.propLen st.invLen e.funs
+    obtain ⟨b1, b2, _⟩ := number_range tbl (numberFuns tbl st.propLen st.invLen e.funs).2.1
+      (numberFuns tbl st.propLen st.invLen e.funs).2.2 e.script
+    have hin : ∀ f ∈ st.live ++ c.funs, ∀ op ∈ f.ops,
+        (∀ id, op = ROp.prop id → id < c.propCount) ∧ (∀ id, op = ROp.invoke id → id < c.invCount) := by
+      intro f hfm op hop
+      rw [hp, hi]
+      rcases List.mem_append.mp hfm with hfm | hfm
+      · obtain ⟨c1, c2⟩ := h f hfm op hop
+        exact ⟨fun id hid => by have := c1 id hid; omega, fun id hid => by have := c2 id hid; omega⟩
+      · rw [hf] at hfm
+        obtain ⟨c1, c2⟩ := a3 f hfm op hop
+        exact ⟨fun id hid => by have := c1 id hid; omega, fun id hid => by have := c2 id hid; omega⟩
+    refine ⟨fun f hfm op hop => hin f hfm op hop, ?_⟩
+    simp only [stepWith]
+    rw [flatMap_faults_nil _ e.calls _ _ hin, List.append_nil]
 
-/-- **C19_cache_slots_in_range** (the repaired design: numbering continues per module, vectors
-grow).  For every session, every function defined by any entry keeps indexing inside the module's
-cache vectors, so no entry — however much later — makes an out-of-range access. -/
+/-- **C19_cache_slots_in_range.**  For every session, every function defined by any entry keeps
+indexing inside the module's cache vectors, so no entry — however much later, whatever failed in
+between — makes an out-of-range access (`debug_assert!(inline_slot < len)` / `get_unchecked` in
+`cache.rs` are safe). -/
 theorem C19_cache_slots_in_range (globals : List String) (es : List Entry) :
-    InRange (runSession true globals St.empty es) ∧ (runSession true globals St.empty es).faults = [] := by
-  have : ∀ st, InRange st → InRange (runSession true globals st es) ∧ (runSession true globals st es).faults = st.faults := by
+    InRange (runSession globals St.empty es) ∧ (runSession globals St.empty es).faults = [] := by
+  have : ∀ st, InRange st → InRange (runSession globals st es) ∧ (runSession globals st es).faults = st.faults := by
     induction es with
     | nil => intro st h; exact ⟨h, rfl⟩
     | cons e rest ih =>
@@ -290,10 +318,181 @@ theorem C19_cache_slots_in_range (globals : List String) (es : List Entry) :
       exact ⟨h3, by rw [runSession, h4, h2]⟩
   exact this St.empty (by intro f hf; simp [St.empty] at hf)
 
-/-! ### D13 on the pinned model, and non-vacuity -/
+/-! ### the ids of a whole session are consecutive: no two sites share a slot -/
 
-/-- `notes/w_D13_repl_lines.txt`: a class, a function with an invoke site (`a.foo()`), an
-instance, then a call of the function from a later entry -/
+def nProp : List Op → Nat
+  | [] => 0
+  | .prop :: rest => nProp rest + 1
+  | _ :: rest => nProp rest
+
+def nInv : List Op → Nat
+  | [] => 0
+  | .invoke :: rest => nInv rest + 1
+  | _ :: rest => nInv rest
+
+theorem propIds_append (a b : List ROp) : propIds (a ++ b) = propIds a ++ propIds b := by
+  simp [propIds, List.filterMap_append]
+
+theorem invIds_append (a b : List ROp) : invIds (a ++ b) = invIds a ++ invIds b := by
+  simp [invIds, List.filterMap_append]
+
+/-- one function body: the property ids are `np, np+1, ..` and the invoke ids `ni, ni+1, ..`, in
+emission order, and the counters end right after them -/
+theorem number_ids (tbl : List String) (np ni : Nat) (ops : List Op) :
+    (number tbl np ni ops).2.1 = np + nProp ops ∧ (number tbl np ni ops).2.2 = ni + nInv ops ∧
+    propIds (number tbl np ni ops).1 = List.range' np (nProp ops) ∧
+    invIds (number tbl np ni ops).1 = List.range' ni (nInv ops) := by
+  induction ops generalizing np ni with
+  | nil => simp [number, nProp, nInv, propIds, invIds]
+  | cons op rest ih =>
+    cases op with
+    | get n =>
+      obtain ⟨h1, h2, h3, h4⟩ := ih np ni
+      simp only [propIds, invIds] at h3 h4
+      simp [number, nProp, nInv, propIds, invIds, h1, h2, h3, h4]
+    | set n =>
+      obtain ⟨h1, h2, h3, h4⟩ := ih np ni
+      simp only [propIds, invIds] at h3 h4
+      simp [number, nProp, nInv, propIds, invIds, h1, h2, h3, h4]
+    | prop =>
+      obtain ⟨h1, h2, h3, h4⟩ := ih (np + 1) ni
+      simp only [propIds, invIds] at h3 h4
+      simp [number, nProp, nInv, propIds, invIds, h1, h2, h3, h4, List.range'_succ]
+      omega
+    | invoke =>
+      obtain ⟨h1, h2, h3, h4⟩ := ih np (ni + 1)
+      simp only [propIds, invIds] at h3 h4
+      simp [number, nProp, nInv, propIds, invIds, h1, h2, h3, h4, List.range'_succ]
+      omega
+
+/-- the functions of one entry, in the order they are finished -/
+theorem numberFuns_ids (tbl : List String) (np ni : Nat) (fs : List FunDef) :
+    ∃ kp ki, (numberFuns tbl np ni fs).2.1 = np + kp ∧ (numberFuns tbl np ni fs).2.2 = ni + ki ∧
+      propIds ((numberFuns tbl np ni fs).1.flatMap (·.ops)) = List.range' np kp ∧
+      invIds ((numberFuns tbl np ni fs).1.flatMap (·.ops)) = List.range' ni ki := by
+  induction fs generalizing np ni with
+  | nil => exact ⟨0, 0, by simp [numberFuns, propIds, invIds]⟩
+  | cons f rest ih =>
+    obtain ⟨a1, a2, a3, a4⟩ := number_ids tbl np ni f.ops
+    obtain ⟨kp, ki, b1, b2, b3, b4⟩ := ih (number tbl np ni f.ops).2.1 (number tbl np ni f.ops).2.2
+    refine ⟨nProp f.ops + kp, nInv f.ops + ki, ?_, ?_, ?_, ?_⟩
+    · simp only [numberFuns]; omega
+    · simp only [numberFuns]; omega
+    · simp only [numberFuns, List.flatMap_cons, propIds_append]
+      rw [b3, a3, a1]
+      exact List.range'_append_1
+    · simp only [numberFuns, List.flatMap_cons, invIds_append]
+      rw [b4, a4, a2]
+      exact List.range'_append_1
+
+/-- one compiled entry: its functions and then its script take the ids right after the module's
+current vector lengths, and the vectors are grown to exactly the first unused ids -/
+theorem compile_ids (globals : List String) (st : St) (e : Entry) (c : Compiled) (h : compile globals st e = .ok c) :
+    ∃ kp ki, c.propCount = st.propLen + kp ∧ c.invCount = st.invLen + ki ∧
+      propIds (c.funs.flatMap (·.ops) ++ c.script) = List.range' st.propLen kp ∧
+      invIds (c.funs.flatMap (·.ops) ++ c.script) = List.range' st.invLen ki := by
+  obtain ⟨tbl, pro, hpp, hpi, hf, hs, hp, hi⟩ := compileAt_ok _ _ globals st e c h
+  obtain ⟨kp, ki, a1, a2, a3, a4⟩ := numberFuns_ids tbl st.propLen st.invLen e.funs
+  obtain ⟨b1, b2, b3, b4⟩ := number_ids tbl (numberFuns tbl st.propLen st.invLen e.funs).2.1
+    (numberFuns tbl st.propLen st.invLen e.funs).2.2 e.script
+  refine ⟨kp + nProp e.script, ki + nInv e.script, by omega, by omega, ?_, ?_⟩
+  · rw [hf, hs, propIds_append, propIds_append, hpp, a3, b3, a1, List.nil_append]
+    exact List.range'_append_1
+  · rw [hf, hs, invIds_append, invIds_append, hpi, a4, b4, a2, List.nil_append]
+    exact List.range'_append_1
+
+theorem sessionOps_ids (globals : List String) (es : List Entry) : ∀ st : St,
+    ∃ kp ki, (runSession globals st es).propLen = st.propLen + kp ∧ (runSession globals st es).invLen = st.invLen + ki ∧
+      propIds (sessionOps globals st es) = List.range' st.propLen kp ∧
+      invIds (sessionOps globals st es) = List.range' st.invLen ki := by
+  induction es with
+  | nil => intro st; exact ⟨0, 0, by simp [runSession, sessionOps, propIds, invIds]⟩
+  | cons e rest ih =>
+    intro st
+    obtain ⟨kp2, ki2, r1, r2, r3, r4⟩ := ih (step globals st e)
+    cases hc : compile globals st e with
+    | error err =>
+      have hst : step globals st e = st := by simp [step, stepWith, hc]
+      rw [hst] at r1 r2 r3 r4
+      refine ⟨kp2, ki2, ?_, ?_, ?_, ?_⟩
+      · simp only [runSession, hst]; exact r1
+      · simp only [runSession, hst]; exact r2
+      · simp only [sessionOps, hc, hst, List.nil_append]; exact r3
+      · simp only [sessionOps, hc, hst, List.nil_append]; exact r4
+    | ok c =>
+      obtain ⟨kp1, ki1, c1, c2, c3, c4⟩ := compile_ids globals st e c hc
+      have hp : (step globals st e).propLen = c.propCount := by simp [step, stepWith, hc]
+      have hi : (step globals st e).invLen = c.invCount := by simp [step, stepWith, hc]
+      rw [hp, c1] at r1 r3
+      rw [hi, c2] at r2 r4
+      refine ⟨kp1 + kp2, ki1 + ki2, ?_, ?_, ?_, ?_⟩
+      · simp only [runSession]; omega
+      · simp only [runSession]; omega
+      · simp only [sessionOps, hc]
+        rw [propIds_append, r3, c3]
+        exact List.range'_append_1
+      · simp only [sessionOps, hc]
+        rw [invIds_append, r4, c4]
+        exact List.range'_append_1
+
+/-- **C19_cache_ids_consecutive.**  Over a whole session — any number of entries, failing ones
+included — the property ids the compiles hand out, read in emission order, are exactly
+`0, 1, .., propLen - 1` where `propLen` is the final length of the module's property vector, and
+likewise the invoke ids: numbering continues across entries, an entry that fails to compile consumes
+no id, no slot is left unused and none is handed out twice. -/
+theorem C19_cache_ids_consecutive (globals : List String) (es : List Entry) :
+    propIds (sessionOps globals St.empty es) = List.range (runSession globals St.empty es).propLen ∧
+    invIds (sessionOps globals St.empty es) = List.range (runSession globals St.empty es).invLen := by
+  obtain ⟨kp, ki, h1, h2, h3, h4⟩ := sessionOps_ids globals es St.empty
+  have e1 : St.empty.propLen = 0 := rfl
+  have e2 : St.empty.invLen = 0 := rfl
+  rw [e1, Nat.zero_add] at h1
+  rw [e2, Nat.zero_add] at h2
+  rw [e1] at h3
+  rw [e2] at h4
+  rw [h1, h2, h3, h4, List.range_eq_range', List.range_eq_range']
+  exact ⟨rfl, rfl⟩
+
+/-- **C19_cache_slots_disjoint.**  No two cache sites of a session share a slot, whichever entries
+they were compiled by (C13's per-compile `C13_slot_disjoint` extended to the module the REPL builds
+entry by entry): a site of a later entry can neither read nor overwrite what an earlier entry's site
+cached. -/
+theorem C19_cache_slots_disjoint (globals : List String) (es : List Entry) :
+    (propIds (sessionOps globals St.empty es)).Nodup ∧ (invIds (sessionOps globals St.empty es)).Nodup := by
+  obtain ⟨h1, h2⟩ := C19_cache_ids_consecutive globals es
+  rw [h1, h2]
+  exact ⟨List.nodup_range, List.nodup_range⟩
+
+/-- the functions that are live after a session were all emitted by it: the two theorems above speak
+about every site that can still run -/
+theorem live_subset_sessionOps (globals : List String) (es : List Entry) : ∀ st : St,
+    ∀ f ∈ (runSession globals st es).live, f ∈ st.live ∨ ∀ op ∈ f.ops, op ∈ sessionOps globals st es := by
+  induction es with
+  | nil => intro st f hf; exact Or.inl hf
+  | cons e rest ih =>
+    intro st f hf
+    rcases ih (step globals st e) f hf with h | h
+    · cases hc : compile globals st e with
+      | error err =>
+        left
+        simpa [step, stepWith, hc] using h
+      | ok c =>
+        have : f ∈ st.live ++ c.funs := by simpa [step, stepWith, hc] using h
+        rcases List.mem_append.mp this with h1 | h1
+        · exact Or.inl h1
+        · right
+          intro op hop
+          simp only [sessionOps, hc]
+          exact List.mem_append_left _ (List.mem_append_left _ (List.mem_flatMap.mpr ⟨f, h1, hop⟩))
+    · right
+      intro op hop
+      simp only [sessionOps]
+      exact List.mem_append_right _ (h op hop)
+
+/-! ### the repaired finding D13 as a regression fact, and non-vacuity -/
+
+/-- `corpus/C19/04_d13_cache_replaced.json` in the model's vocabulary: a class, a function with an
+invoke site (`a.foo()`), an instance, then a call of the function from a later entry -/
 def d13Session : List Entry :=
   [ { syntaxOk := true, decls := ["A"], refs := [], script := [.set "A"], calls := [],
       funs := [{ name := "init", ops := [.prop] }, { name := "foo", ops := [.prop] }] },
@@ -303,92 +502,52 @@ def d13Session : List Entry :=
     { syntaxOk := true, decls := [], refs := ["print", "g", "a"], script := [.get "print", .get "g", .get "a"],
       calls := ["g", "foo"], funs := [] } ]
 
-/-- **C19_witness_cache_replaced** (D13).  Every compile restarts the numbering and replaces the
-vectors: when the third entry calls `init` (property id 0) the property vector has length 0, and
-when the fourth calls `g` (invoke id 0) and `foo` (property id 1) the vectors are empty again —
-`debug_assert!(inline_slot < self.invoke.len())`, `get_unchecked` in release. -/
-theorem C19_witness_cache_replaced :
-    (runSession false ["print"] St.empty d13Session).faults =
+/-- **C19_regression_restarted_numbering** (D13, repaired).  With the numbering of the code before
+the repair — every compile restarted at 0 and the vectors were replaced — the same session indexes
+out of range three times: the fault detector `C19_cache_slots_in_range` speaks about is not vacuous,
+and un-doing the repair re-opens exactly this. -/
+theorem C19_regression_restarted_numbering :
+    (BeforeRepair.runSession ["print"] St.empty d13Session).faults =
       [("init", "property", 0, 0), ("foo", "property", 1, 0), ("g", "invoke", 0, 0)] := by
   decide
 
-/-- **C19_cache_replaced_general** (D13 in general, pinned model).  Whatever the session so far:
-if a live function has an invoke site with id `id`, and a later entry that compiles with at most `id`
-invoke sites of its own calls it, that call indexes the replaced vector out of range.  (Same for
-property sites.) -/
-theorem C19_cache_replaced_general (globals : List String) (st : St) (e : Entry) (c : Compiled) (f : RFun) (id : Nat)
-    (hc : compile false globals st e = .ok c) (hf : f ∈ st.live) (hcall : f.name ∈ e.calls) :
-    (ROp.invoke id ∈ f.ops → c.invCount ≤ id → (f.name, "invoke", id, c.invCount) ∈ (step false globals st e).faults) ∧
-    (ROp.prop id ∈ f.ops → c.propCount ≤ id → (f.name, "property", id, c.propCount) ∈ (step false globals st e).faults) := by
-  have hmem : f ∈ List.filter (fun f => decide (f.name ∈ e.calls)) (st.live ++ c.funs) :=
-    List.mem_filter.mpr ⟨List.mem_append_left _ hf, by simpa using hcall⟩
-  constructor
-  · intro hop hlen
-    simp only [step, hc]
-    refine List.mem_append_right _ (List.mem_flatMap.mpr ⟨f, hmem, ?_⟩)
-    exact List.mem_filterMap.mpr ⟨ROp.invoke id, hop, by simp [ROp.fault, Nat.not_lt.mpr hlen]⟩
-  · intro hop hlen
-    simp only [step, hc]
-    refine List.mem_append_right _ (List.mem_flatMap.mpr ⟨f, hmem, ?_⟩)
-    exact List.mem_filterMap.mpr ⟨ROp.prop id, hop, by simp [ROp.fault, Nat.not_lt.mpr hlen]⟩
-
-/-- **C19_no_fault_outside_signature** (pinned model).  An entry that calls, among the functions
-defined by *earlier* entries, only functions without inline-cache sites makes no out-of-range
-access: the signature excluded from the regression stream is exactly where D13 lives. -/
-theorem C19_no_fault_outside_signature (globals : List String) (st : St) (e : Entry)
-    (h : ∀ f ∈ st.live, f.name ∈ e.calls → ∀ op ∈ f.ops, (∀ id, op ≠ ROp.prop id) ∧ (∀ id, op ≠ ROp.invoke id)) :
-    (step false globals st e).faults = st.faults := by
-  unfold step
-  cases hc : compile false globals st e with
-  | error err => rfl
-  | ok c =>
-    unfold compile at hc
-    split at hc
-    · cases hc
-    · split at hc
-      · cases hc
-      · split at hc
-        · cases hc
-        · cases hc
-          simp only [Bool.false_eq_true, if_false]
-          generalize htbl : st.symbols ++ e.decls ++ _ = tbl
-          obtain ⟨a1, a2, a3⟩ := numberFuns_range tbl 0 0 e.funs
-          obtain ⟨b1, b2, _⟩ := number_range tbl (numberFuns tbl 0 0 e.funs).2.1 (numberFuns tbl 0 0 e.funs).2.2 e.script
-          suffices hnil : (List.filter (fun f => decide (f.name ∈ e.calls)) (st.live ++ (numberFuns tbl 0 0 e.funs).1)).flatMap
-              (RFun.faults (number tbl (numberFuns tbl 0 0 e.funs).2.1 (numberFuns tbl 0 0 e.funs).2.2 e.script).2.1
-                (number tbl (numberFuns tbl 0 0 e.funs).2.1 (numberFuns tbl 0 0 e.funs).2.2 e.script).2.2) = [] by
-            rw [hnil, List.append_nil]
-          rw [List.flatMap_eq_nil_iff]
-          intro f hf
-          obtain ⟨hf1, hf2⟩ := List.mem_filter.mp hf
-          apply faults_nil_of_inRange
-          intro op hop
-          rcases List.mem_append.mp hf1 with hold | hnew
-          · obtain ⟨c1, c2⟩ := h f hold (by simpa using hf2) op hop
-            exact ⟨fun id hid => absurd hid (c1 id), fun id hid => absurd hid (c2 id)⟩
-          · obtain ⟨c1, c2⟩ := a3 f hnew op hop
-            exact ⟨fun id hid => by have := c1 id hid; omega, fun id hid => by have := c2 id hid; omega⟩
-
-/-- What is *not* proved in Lean: that the printed output of a session equals that of the
-concatenated file.  That needs the semantics of whole programs; it is judged on the sessions stream
-with the implementation's own `run` as the Spec (DESIGN.md §5 C19).  The model-level content of the
-property is `C19_symbols_persist` + `C19_cache_slots_in_range` (+ `C19_no_fault_outside_signature`
-for the pinned code). -/
+/-- The model-level content of the property: no session makes an out-of-range cache access.  (That
+the printed output of a session equals that of the concatenated file needs the semantics of whole
+programs; it is judged on the sessions stream with the implementation's own `run` as the Spec,
+DESIGN.md §5 C19.) -/
 def C19_full : Prop :=
-  ∀ (globals : List String) (es : List Entry), (runSession false globals St.empty es).faults = []
+  ∀ (globals : List String) (es : List Entry), (runSession globals St.empty es).faults = []
 
-/-- … and on the pinned model the full statement is false (D13). -/
-theorem C19_full_fails_pinned : ¬ C19_full := by
-  intro h
-  have := h ["print"] d13Session
-  rw [C19_witness_cache_replaced] at this
-  cases this
+/-- … which, after the repair of D13, holds. -/
+theorem C19_full_holds : C19_full := fun globals es => (C19_cache_slots_in_range globals es).2
 
-/-- the same session on the repaired model has no fault, all four slots of `a`, `g`, `A`, `print` kept -/
+/-- the D13 session on the code's model: no fault, the four slots of `A`, `g`, `a`, `print` kept,
+`init`/`foo` own property slots 0 and 1 and `g` invoke slot 0 to the end of the session -/
 example :
-    (runSession true ["print"] St.empty d13Session).faults = [] ∧
-    (runSession true ["print"] St.empty d13Session).symbols = ["A", "g", "a", "print"] ∧
-    (runSession true ["print"] St.empty d13Session).propLen = 2 := by
+    (runSession ["print"] St.empty d13Session).faults = [] ∧
+    (runSession ["print"] St.empty d13Session).symbols = ["A", "g", "a", "print"] ∧
+    (runSession ["print"] St.empty d13Session).propLen = 2 ∧
+    (runSession ["print"] St.empty d13Session).invLen = 1 ∧
+    (runSession ["print"] St.empty d13Session).live.map (fun f => (f.name, f.ops)) =
+      [("init", [.prop 0]), ("foo", [.prop 1]), ("g", [.invoke 0])] := by
+  decide
+
+/-- sites in several entries, with an entry the resolver rejects and an entry the compiler proper
+rejects (after numbering its two sites) in between: the later entry's sites continue at 1 / 1, the
+failing entries consumed nothing -/
+example :
+    let es : List Entry :=
+      [ { syntaxOk := true, decls := ["f"], refs := [], script := [.set "f"], calls := [],
+          funs := [{ name := "f", ops := [.prop, .invoke] }] },
+        { syntaxOk := true, decls := [], refs := ["nope"], script := [.get "nope", .prop], calls := [],
+          funs := [{ name := "l", ops := [.prop] }] },
+        { syntaxOk := true, compilerOk := false, decls := ["z", "big"], refs := [], script := [.set "z", .set "big"],
+          calls := [], funs := [{ name := "z", ops := [.prop, .invoke] }, { name := "big", ops := [] }] },
+        { syntaxOk := true, decls := ["h"], refs := ["f"], script := [.set "h", .get "f", .invoke], calls := ["f"],
+          funs := [{ name := "h", ops := [.invoke, .prop] }] } ]
+    propIds (sessionOps [] St.empty es) = [0, 1] ∧ invIds (sessionOps [] St.empty es) = [0, 1, 2] ∧
+    (runSession [] St.empty es).live.map (fun f => (f.name, f.ops)) =
+      [("f", [.prop 0, .invoke 0]), ("h", [.invoke 1, .prop 1])] := by
   decide
 
 /-- a session with a duplicate declaration, an undeclared name and a syntax error: the three failing
@@ -400,8 +559,8 @@ example :
         { syntaxOk := true, decls := [], refs := ["nope"], funs := [], script := [.get "nope"], calls := [] },
         { syntaxOk := false, decls := [], refs := [], funs := [], script := [], calls := [] },
         { syntaxOk := true, decls := ["y"], refs := ["print", "x"], funs := [], script := [.get "print", .get "x", .set "y"], calls := [] } ]
-    (runSession false ["print"] St.empty es).symbols = ["x", "y", "print"] ∧
-    (es.map fun e => (compile false ["print"] (runSession false ["print"] St.empty [es[0]!]) e).toOption.map (·.script)) =
+    (runSession ["print"] St.empty es).symbols = ["x", "y", "print"] ∧
+    (es.map fun e => (compile ["print"] (runSession ["print"] St.empty [es[0]!]) e).toOption.map (·.script)) =
       [none, none, none, none, some [.decl 1, .decl 2, .set 2, .get 2, .get 0, .set 1]] := by
   decide
 
